@@ -72,6 +72,18 @@ Theorem C05_iban_is_valid : forall national txt,
 Proof. exact (fun national => iban_is_valid_total the_env the_iban_cfg the_table national env_obl env_alpha_obl cfg_obl table_obl
                 C05_guard_obl C05_chars_obl C05_strict_obl). Qed.
 
+(* the validating entry points are one question: the constructor (with or without the national step) succeeds exactly
+   when validate() with the same flag returns true on the unvalidated object, and then the object is the cleaned text *)
+Theorem C05_entry_points : forall national txt vb,
+  (exists s, iban_new the_env the_iban_cfg the_table national txt false vb = Ok s)
+  <-> iban_validate the_env the_iban_cfg the_table national vb (clean the_env txt) = Ok true.
+Proof.
+  intros national txt vb. unfold iban_new, iban_validate. cbn [bind].
+  destruct (run_steps the_env the_iban_cfg the_table national vb (clean the_env txt) (ic_steps the_iban_cfg)) as [u|x|x];
+    cbn [bind]; split; intro H; try reflexivity; try discriminate; try (destruct H as [s H]; discriminate).
+  exists (clean the_env txt). reflexivity.
+Qed.
+
 (* a raised error names a defect present in the cleaned text (Spec/Defects.v) *)
 Theorem C05_iban_named : forall national txt ex,
   iban_new the_env the_iban_cfg the_table national txt false false = Err ex ->
@@ -109,6 +121,7 @@ Print Assumptions C05_national_total.
 Print Assumptions C05_iban_total_national.
 Print Assumptions C05_iban_named_national.
 Print Assumptions C05_iban_is_valid.
+Print Assumptions C05_entry_points.
 Print Assumptions C05_iban_named.
 Print Assumptions C05_bic_total.
 Print Assumptions C05_bic_is_valid.
